@@ -233,3 +233,26 @@ fn c01_finalize_compresses_static_chain() {
     assert!(matches!(fin.pattern, Pattern::Static(s) if s.len() == 4 && s[0] == b'/' && s[1] == b'a' && s[2] == b'/' && s[3] == b'b'), "finalize: single static chain compressed to whole segments `/a/b`");
     assert!(fin.children.len() == 1 && matches!(fin.children[0].pattern, Pattern::Param), "finalize: the compressed node keeps the grandchildren");
 }
+
+/// T4 (static siblings sharing a byte prefix, separated by characters that sort below '/'):
+///   "" -> [ "/a.b", "/a" -> [ "/c" ], :p ]        routes: /a.b, /a, /a/c, /:p
+#[kani::proof]
+#[kani::unwind(10)]
+fn c01_search_tree_prefix_siblings() {
+    let grand = leak(vec![node(Pattern::Static(b"/c"), &[])]);
+    let kids = leak(vec![node(Pattern::Static(b"/a.b"), &[]), node(Pattern::Static(b"/a"), grand), node(Pattern::Param, &[])]);
+    let root = node(Pattern::Static(b""), kids);
+    let mut r = any_request();
+    let (target, hit) = root.search_target(&mut r.path);
+    if r.empty_seg { return }
+    let (ab, a) = (r.seg_is(0, b"a.b"), r.seg_is(0, b"a"));
+    if r.nseg == 1 && ab { assert!(hit && std::ptr::eq(target, &kids[0]), "/a.b: its own static route") }
+    if r.nseg == 1 && a { assert!(hit && std::ptr::eq(target, &kids[1]), "/a: its own static route, not /a.b and not the param") }
+    if r.nseg == 1 && !ab && !a { assert!(hit && std::ptr::eq(target, &kids[2]) && r.param_is_seg(0, 0), "/<other> (including /a.c, /a-b, /a.): the param route") }
+    if r.nseg == 2 && a && r.seg_is(1, b"c") { assert!(hit && std::ptr::eq(target, &grand[0]), "/a/c: reached THROUGH /a although the sibling /a.b sorts first and shares its prefix") }
+    if r.nseg == 2 && a && !r.seg_is(1, b"c") { assert!(!hit, "/a/<other>: miss") }
+    if r.nseg == 2 && !a { assert!(!hit, "/<not a>/<x>: no route => miss") }
+    if r.nseg >= 3 { assert!(!hit, "three or more segments: miss") }
+    kani::cover!(r.nseg == 2 && a && r.seg_is(1, b"c"));
+    kani::cover!(r.nseg == 1 && ab);
+}
